@@ -196,23 +196,23 @@ fn do_call<F: Fl>(nodes: &[F::Node], c: &Call) -> CallRet {
             CallRet::Returned
         }
         Call::Bfs(u, t) => {
-            let cfg = Cfg { kind: Kind::Bfs, transpose: false, target: Some(t), meth: Meth::None, res: ResK::Search, alt: false };
+            let cfg = Cfg { kind: Kind::Bfs, transpose: false, target: Some(t), meth: Meth::None, res: ResK::Search, alt: false, tt: false };
             let _ = F::search(n(u), &cfg, &mut |_| true);
             CallRet::Returned
         }
         Call::DfsPfs(u, t) => {
             for kind in [Kind::Dfs, Kind::PfsMin] {
-                let cfg = Cfg { kind, transpose: false, target: Some(t), meth: Meth::None, res: ResK::Path, alt: false };
+                let cfg = Cfg { kind, transpose: false, target: Some(t), meth: Meth::None, res: ResK::Path, alt: false, tt: false };
                 let _ = F::search(n(u), &cfg, &mut |_| true);
             }
             CallRet::Returned
         }
         Call::Orders(u) => {
             for kind in [Kind::Pre, Kind::Post] {
-                let cfg = Cfg { kind, transpose: false, target: None, meth: Meth::None, res: ResK::Nodes, alt: false };
+                let cfg = Cfg { kind, transpose: false, target: None, meth: Meth::None, res: ResK::Nodes, alt: false, tt: false };
                 let _ = F::search(n(u), &cfg, &mut |_| true);
             }
-            let cfg = Cfg { kind: Kind::Dfs, transpose: false, target: None, meth: Meth::None, res: ResK::Cycle, alt: false };
+            let cfg = Cfg { kind: Kind::Dfs, transpose: false, target: None, meth: Meth::None, res: ResK::Cycle, alt: false, tt: false };
             let _ = F::search(n(u), &cfg, &mut |_| true);
             CallRet::Returned
         }
